@@ -45,7 +45,7 @@ def _restr(tier: str) -> Dict[str, Dict[str, List[Any]]]:
                 "pattern": ["equal", "size1", "missing_leading", "both_expand", "missing_and_size1",
                             "missing_and_size1_left", "size1_inner"]},
         "embedding": {"batch": [[2], [], [2, 3], [1, 2, 3]], "n": [4, 1, 7], "V": [6, 2, 11], "D": [3, 1, 5],
-                      "padding_idx": [None], "max_norm": [None], "norm_type": [2.0]},
+                      "padding_idx": [None, 0, -1], "pad_hit": [False], "max_norm": [None], "norm_type": [2.0]},
         "dropout": {"batch": [[2], [2, 3]], "n": [64, 256], "p": [0.5, 0.1, 0.9], "training": [True]},
         "mse_loss": {"batch": BB, "n": D, "reduction": ["mean", "sum"], "target_grad": [True]},
         "layer_norm": {"batch": BB[:4], "n": [5, 2, 8, 3], "nd": [1, 2], "weight": [True, False], "bias": [True, False],
@@ -68,6 +68,21 @@ def cases(tier: str, seed: int) -> List[Dict[str, Any]]:
                 fixed[k] = v[0]
         for cfg in lattice(op, 99, fixed=fixed, restrict=restr):
             out.append({"kind": "probe", "op": name, "cfg": cfg, "seed": seed})
+    # history: the same shapes first used in a low-precision dtype (scale factors must not be cached
+    # in that precision)
+    for name in ("linear", "matmul", "conv1d", "add", "embedding", "mse_loss"):
+        op = OPS[name]
+        base = {k: v[0] for k, v in op.coords.items()}
+        base.update({"dtype": "float64"})
+        if "constraint" in base:
+            base["constraint"] = None
+        for extra in ({"fin": 5, "fout": 3, "batch": [2, 3]}, {"m": 3, "k": 5, "n": 3}, {"cin": 6, "cout": 6, "k": 3, "L": 40},
+                      {"pattern": "missing_leading", "batch": [2, 3], "n": 5}, {"V": 6, "n": 7, "pad_hit": False}, {"n": 3, "target_grad": True}):
+            cfg = dict(base, **{k: v for k, v in extra.items() if k in op.coords})
+            if op.valid(cfg):
+                for pre in ("bfloat16", "float16"):
+                    out.append({"kind": "probe", "op": name, "cfg": cfg, "seed": seed, "pre_dtype": pre, "fresh": True})
+                break
     for tau in [1e-3, 0.25, 0.5, 1.0, 3.0, 1e3, None]:
         for shape in ([], [3], [2, 3]):
             out.append({"kind": "residual", "tau": tau, "shape": shape})
@@ -117,6 +132,12 @@ def run_case(case: Dict[str, Any]) -> Dict[str, Any]:
     cfg = case["cfg"]
     shape_keys = [k for k in cfg if k not in ("dtype", "constraint")]
     ident = op.name
+    if case.get("pre_dtype"):
+        ident += f"|after_{case['pre_dtype']}_call"
+        try:
+            probe(op, dict(cfg, dtype=case["pre_dtype"]), case["seed"], draws=1, gdraws=1)
+        except Exception:  # noqa
+            pass
     r = probe(op, cfg, case["seed"], draws=1, gdraws=1)
     if "skipped" in r:
         return {"skipped": r["skipped"]}
